@@ -3,7 +3,14 @@
 package server
 
 import (
+	"bytes"
+	"encoding/json"
 	"fmt"
+	"os"
+	"os/exec"
+	"path/filepath"
+	"regexp"
+	"strings"
 	"testing"
 	"time"
 
@@ -91,7 +98,7 @@ func TestVerifC18Single(t *testing.T) {
 		seeds[i] = root.Uint64()
 	}
 	kit.Parallel(n, kit.Workers(), func(i int) {
-		if rep.NumViolations() >= 4 {
+		if rep.NumViolations() >= 4 || c18Skip(i) {
 			return
 		}
 		c18Single(rep, i, seeds[i])
@@ -100,87 +107,366 @@ func TestVerifC18Single(t *testing.T) {
 
 // c18Snapshot runs one single-server scenario in which a Raft snapshot is
 // forced before a restart, so that the restarted controller starts from the
-// snapshot instead of replaying the whole log.  trailing > 0 scales Raft's
-// TrailingLogs (10240 in production, not configurable in Liftbridge) down so
-// that the snapshot also compacts the log.
-func c18Snapshot(rep *kit.Report, run int, seed uint64, trailing int) {
-	e := c18NewEnv(rep, "snapshot", run, seed)
+// snapshot instead of replaying the whole log.
+//
+//	variant 0: restart right after the snapshot (nothing follows it in the log)
+//	variant 1: one more operation whose event cannot be published yet (two
+//	           injected publish failures), then the restart: the log suffix after
+//	           the snapshot holds no PUBLISH_ACTIVITY entry
+//	variant 2: several more operations, then the restart
+//
+// trailing > 0 scales Raft's TrailingLogs (10240 in production, a Raft default
+// Liftbridge does not expose) down so that the snapshot also compacts the log.
+func c18Snapshot(rep *kit.Report, unit string, run int, seed uint64, variant, trailing int) {
+	e := c18NewEnv(rep, unit, run, seed)
 	rng := e.rng
 	c, _, err := vfSingle("c18n", e.mut(nil))
 	if err != nil {
-		rep.Inconc(fmt.Sprintf("[snapshot run %d] server start failed: %v", run, err))
+		rep.Inconc(fmt.Sprintf("[%s run %d] server start failed: %v", unit, run, err))
 		return
 	}
 	e.c = c
 	defer e.close()
 	e.attach("a")
 	e.installHooks(rng.Range(0, 2), rng.Range(0, 2), rng.Range(10, 30), rng.Range(10, 30), false)
-	nops := rng.Range(10, 22)
-	snapAt := rng.Range(4, nops-2)
-	quiesce := rng.Bool()
-	for i := 0; i < nops; i++ {
+	before := rng.Range(6, 14)
+	after := rng.Range(4, 10)
+	bad := func() bool {
 		e.mu.Lock()
-		stop := e.inconc || e.failed
-		e.mu.Unlock()
-		if stop {
-			break
+		defer e.mu.Unlock()
+		return e.inconc || e.failed
+	}
+	for i := 0; i < before && !bad(); i++ {
+		e.doOp(e.genOp(1, false))
+	}
+	srv := e.leader()
+	if srv == nil || bad() {
+		e.account()
+		return
+	}
+	if rng.Bool() {
+		// let the dispatcher record everything first
+		target := e.absorbStore(srv, "a")
+		vfWait(20*time.Second, func() bool { return srv.activity.LastPublishedRaftIndex()+1 >= target })
+	}
+	e.absorbStore(srv, "a")
+	if trailing > 0 {
+		if err := srv.getRaft().ReloadConfig(raft.ReloadableConfig{TrailingLogs: uint64(trailing), SnapshotInterval: 120 * time.Second,
+			SnapshotThreshold: 8192, HeartbeatTimeout: time.Second, ElectionTimeout: time.Second}); err != nil {
+			e.inconclusive("ReloadConfig: " + err.Error())
+			e.account()
+			return
 		}
-		if i == snapAt {
-			srv := e.leader()
-			if srv == nil {
+	}
+	if err := srv.getRaft().Snapshot().Error(); err != nil {
+		e.inconclusive("forced snapshot failed: " + err.Error())
+		e.account()
+		return
+	}
+	e.mu.Lock()
+	e.snapshots++
+	e.mu.Unlock()
+	first, _ := srv.getRaft().store.FirstIndex()
+	e.step("snapshot(variant=%d,firstIndexAfter=%d,lastPublished=%d)", variant, first, srv.activity.LastPublishedRaftIndex())
+	switch variant {
+	case 1:
+		e.mu.Lock()
+		e.forceFail = 2
+		e.mu.Unlock()
+		e.doOp(c18Op{Kind: "create", Stream: fmt.Sprintf("late%d", run), NParts: 1, RF: 1})
+	case 2:
+		for i, n := 0, rng.Range(2, 5); i < n && !bad(); i++ {
+			e.doOp(e.genOp(1, false))
+		}
+	}
+	c18Stage("restarting")
+	if !e.restartNode("a") || e.leader() == nil {
+		e.account()
+		return
+	}
+	if srv := e.leader(); srv != nil {
+		e.step("restarted(lastPublished=%d)", srv.activity.LastPublishedRaftIndex())
+	}
+	for i := 0; i < after && !bad(); i++ {
+		e.doOp(e.genOp(1, false))
+	}
+	e.finish(fmt.Sprintf("fence%d", run))
+	c18Stage("done")
+	e.account()
+}
+
+// TestVerifC18Snapshot: forced Raft snapshot, then restart (log not compacted:
+// Raft keeps 10240 trailing entries).
+func TestVerifC18Snapshot(t *testing.T) {
+	rep := kit.NewReport("C18", "snapshot")
+	defer rep.Write()
+	rep.SetRule(c18Rule + " ; snapshot unit: a Raft snapshot is forced (raft.Snapshot()) and the server restarted right after it (variant 0), after one more operation whose event is held back by two injected publish failures (variant 1: no PUBLISH_ACTIVITY entry follows the snapshot) or after 2..5 more operations (variant 2)")
+	root := kit.NewRNG(kit.Mix(kit.Seed(), 0xC185))
+	n := kit.Scale(9, 36)
+	seeds := make([]uint64, n)
+	for i := range seeds {
+		seeds[i] = root.Uint64()
+	}
+	kit.Parallel(n, kit.Workers(), func(i int) {
+		if rep.NumViolations() >= 6 || c18Skip(i) {
+			return
+		}
+		c18Snapshot(rep, "snapshot", i, seeds[i], i%3, 0)
+	})
+}
+
+// c18Cluster runs one 3-server scenario: the metadata leader (= activity
+// manager) is stopped, leadership is transferred gracefully, the stopped server
+// comes back, all while operations and publish faults continue.
+func c18Cluster(rep *kit.Report, run int, seed uint64) {
+	e := c18NewEnv(rep, "cluster", run, seed)
+	rng := e.rng
+	c, err := vfNewCluster("c18c", 3, e.mut(func(cfg *Config) {
+		cfg.Clustering.ReplicaMaxLeaderTimeout = 1200 * time.Millisecond
+		cfg.Clustering.ReplicaMaxIdleWait = 250 * time.Millisecond
+		cfg.Clustering.ReplicaFetchTimeout = 400 * time.Millisecond
+		cfg.Clustering.ReplicaMaxLagTime = 1500 * time.Millisecond
+	}))
+	if err != nil {
+		rep.Inconc(fmt.Sprintf("[cluster run %d] cluster start failed: %v", run, err))
+		return
+	}
+	e.c = c
+	defer e.close()
+	for _, id := range c.IDs {
+		e.attach(id)
+	}
+	e.installHooks(rng.Range(0, 3), rng.Range(0, 3), rng.Range(10, 40), rng.Range(10, 40), false)
+	nops := rng.Range(16, 26)
+	stopAt := rng.Range(3, nops-8)
+	backAt := stopAt + rng.Range(2, 5)
+	if rng.Chance(1, 4) {
+		backAt = -1
+	}
+	transferAt := -1
+	if rng.Chance(2, 3) {
+		transferAt = rng.Range(2, nops-1)
+	}
+	stopped := ""
+	bad := func() bool {
+		e.mu.Lock()
+		defer e.mu.Unlock()
+		return e.inconc || e.failed
+	}
+	for i := 0; i < nops && !bad(); i++ {
+		if i == stopAt {
+			l := e.leader()
+			if l == nil {
 				break
 			}
-			if quiesce {
-				// let the dispatcher record everything first: the snapshot then
-				// covers the last PUBLISH_ACTIVITY entry as well
-				target := e.absorbStore(srv, "a")
-				vfWait(20*time.Second, func() bool { return srv.activity.LastPublishedRaftIndex()+1 >= target })
+			stopped = e.nodeOf(l)
+			e.step("stopLeader(%s,lastPublished=%d)", stopped, l.activity.LastPublishedRaftIndex())
+			e.absorbAll()
+			if err := c.StopNode(stopped); err != nil {
+				e.logf("stop %s: %v", stopped, err)
 			}
-			e.absorbStore(srv, "a")
-			if trailing > 0 {
-				if err := srv.getRaft().ReloadConfig(raft.ReloadableConfig{TrailingLogs: uint64(trailing), SnapshotInterval: 120 * time.Second,
-					SnapshotThreshold: 8192, HeartbeatTimeout: time.Second, ElectionTimeout: time.Second}); err != nil {
-					e.inconclusive("ReloadConfig: " + err.Error())
-					break
+			e.mu.Lock()
+			e.failovers++
+			e.mu.Unlock()
+			if nl := e.leader(); nl != nil {
+				e.step("newLeader(%s,resumesAfter=%d)", e.nodeOf(nl), nl.activity.LastPublishedRaftIndex())
+			}
+		}
+		if i == backAt && stopped != "" {
+			e.step("restart(%s)", stopped)
+			if !e.startNode(stopped) {
+				break
+			}
+			stopped = ""
+		}
+		if i == transferAt {
+			if l := e.leader(); l != nil {
+				from := e.nodeOf(l)
+				if err := l.getRaft().LeadershipTransfer().Error(); err != nil {
+					e.logf("leadership transfer from %s: %v", from, err)
+				} else {
+					e.mu.Lock()
+					e.failovers++
+					e.mu.Unlock()
+					if nl := e.leader(); nl != nil {
+						e.step("transfer(%s->%s,resumesAfter=%d)", from, e.nodeOf(nl), nl.activity.LastPublishedRaftIndex())
+					}
 				}
 			}
-			if err := srv.getRaft().Snapshot().Error(); err != nil {
-				e.logf("snapshot: %v", err)
-			} else {
-				e.mu.Lock()
-				e.snapshots++
-				e.mu.Unlock()
-			}
-			first, _ := srv.getRaft().store.FirstIndex()
-			e.step("snapshot(quiesced=%v,firstIndexAfter=%d,lastPublished=%d)", quiesce, first, srv.activity.LastPublishedRaftIndex())
-			if !e.restartNode("a") || e.leader() == nil {
-				break
-			}
-			if srv := e.leader(); srv != nil {
-				e.logf("after snapshot restart: lastPublished=%d", srv.activity.LastPublishedRaftIndex())
-			}
 		}
-		e.doOp(e.genOp(1, false))
+		e.doOp(e.genOp(3, false))
+		if rng.Chance(1, 4) {
+			time.Sleep(time.Duration(rng.Range(50, 300)) * time.Millisecond)
+		}
 	}
 	e.finish(fmt.Sprintf("fence%d", run))
 	e.account()
 }
 
-func TestVerifC18Snapshot(t *testing.T) {
-	rep := kit.NewReport("C18", "snapshot")
+// TestVerifC18Cluster: 3-server clusters with a metadata-leader stop, graceful
+// leadership transfer and the old leader rejoining.
+func TestVerifC18Cluster(t *testing.T) {
+	rep := kit.NewReport("C18", "cluster")
 	defer rep.Write()
-	rep.SetRule(c18Rule)
-	root := kit.NewRNG(kit.Mix(kit.Seed(), 0xC185))
-	n := kit.Scale(8, 32)
+	rep.SetRule(c18Rule + " ; cluster unit: 3 servers (activity stream replicated on all, ack policy ALL), the metadata leader is stopped at a seeded position (the new controller resumes from the replicated last-published index), leadership is also transferred gracefully (2/3 of the scenarios) and the stopped server is restarted (3/4)")
+	rep.Assume("a server is removed with Server.Stop(); NATS-level network partitions are not simulated")
+	root := kit.NewRNG(kit.Mix(kit.Seed(), 0xC18C))
+	n := kit.Scale(2, 10)
 	seeds := make([]uint64, n)
 	for i := range seeds {
 		seeds[i] = root.Uint64()
 	}
-	trailing := kit.EnvInt("C18_TRAILING", 0)
-	kit.Parallel(n, kit.Workers(), func(i int) {
-		if rep.NumViolations() >= 4 {
+	kit.Parallel(n, 4, func(i int) {
+		if rep.NumViolations() >= 4 || c18Skip(i) {
 			return
 		}
-		c18Snapshot(rep, i, seeds[i], trailing)
+		c18Cluster(rep, i, seeds[i])
 	})
+}
+
+// ---------------------------------------------------------------- compaction (child processes)
+
+type c18ChildSpec struct {
+	Run      int    `json:"run"`
+	Seed     uint64 `json:"seed"`
+	Variant  int    `json:"variant"`
+	Trailing int    `json:"trailing"`
+}
+
+// TestVerifC18Child runs ONE compaction scenario; the server process dying is
+// a possible outcome there, so the parent classifies the child's end.
+func TestVerifC18Child(t *testing.T) {
+	raw := os.Getenv("C18_CHILD")
+	if raw == "" {
+		t.Skip("child of TestVerifC18Compaction")
+	}
+	var spec c18ChildSpec
+	if err := json.Unmarshal([]byte(raw), &spec); err != nil {
+		t.Fatal(err)
+	}
+	rep := kit.NewReport("C18", "compaction-child")
+	defer rep.Write()
+	c18Stage("started")
+	c18Snapshot(rep, "compaction", spec.Run, spec.Seed, spec.Variant, spec.Trailing)
+}
+
+var c18FrameRe = regexp.MustCompile(`(?m)^(\S*liftbridge/server\.\S*)\(.*\)\n\t(\S+\.go):(\d+)`)
+
+// TestVerifC18Compaction: the snapshot scenarios with Raft's TrailingLogs
+// scaled down, so that the forced snapshot also truncates the Raft log the
+// dispatcher reads from.  One child process per scenario.
+func TestVerifC18Compaction(t *testing.T) {
+	rep := kit.NewReport("C18", "compaction")
+	defer rep.Write()
+	rep.SetRule(c18Rule + " ; compaction unit: the snapshot scenarios (variants 1 and 2) in one child process each, with Raft's TrailingLogs reloaded to 2..16 before the forced snapshot so that the snapshot truncates the Raft log; the child's death (panic) after the restart is classified by the parent")
+	rep.Assume("Raft's TrailingLogs is 10240 in production (raft.DefaultConfig, not exposed by Liftbridge); the harness scales it down through Raft.ReloadConfig so that 'the snapshot truncated the log below the last recorded activity index' is reached after tens instead of >10240 Raft entries")
+	self := os.Getenv("VERIF_SELF")
+	if self == "" {
+		self, _ = os.Executable()
+	}
+	dir := vfWorkDir("c18-children")
+	defer os.RemoveAll(dir)
+	root := kit.NewRNG(kit.Mix(kit.Seed(), 0xC18D))
+	n := kit.Scale(4, 16)
+	specs := make([]c18ChildSpec, n)
+	for i := range specs {
+		specs[i] = c18ChildSpec{Run: i, Seed: root.Uint64(), Variant: 1 + i%2, Trailing: root.Range(2, 16)}
+	}
+	kit.Parallel(n, 4, func(i int) {
+		if rep.NumViolations() >= 4 || c18Skip(i) {
+			return
+		}
+		spec := specs[i]
+		cdir := filepath.Join(dir, fmt.Sprintf("child%02d", i))
+		os.MkdirAll(cdir, 0755)
+		sb, _ := json.Marshal(spec)
+		out := filepath.Join(cdir, "report.json")
+		stageFile := filepath.Join(cdir, "stage")
+		cmd := exec.Command(self, "-test.run", "^TestVerifC18Child$", "-test.count", "1", "-test.timeout", "10m")
+		cmd.Env = append(os.Environ(), "C18_CHILD="+string(sb), "VERIF_OUT="+out, "VERIF_WORK="+cdir, "TMPDIR="+cdir, "C18_STAGE_FILE="+stageFile)
+		var ob bytes.Buffer
+		cmd.Stdout, cmd.Stderr = &ob, &ob
+		if err := cmd.Start(); err != nil {
+			rep.Inconc("cannot start child: " + err.Error())
+			return
+		}
+		timedOut := false
+		timer := time.AfterFunc(8*time.Minute, func() { timedOut = true; cmd.Process.Kill() })
+		werr := cmd.Wait()
+		timer.Stop()
+		rep.Eval()
+		stage, _ := os.ReadFile(stageFile)
+		text := ob.String()
+		tail := text
+		if len(tail) > 6000 {
+			tail = tail[len(tail)-6000:]
+		}
+		var child struct {
+			Completed    bool                 `json:"completed"`
+			Counts       map[string]int64     `json:"counts"`
+			Violations   []*kit.Violation     `json:"violations"`
+			Inconclusive []string             `json:"inconclusive"`
+			Samples      []map[string]any     `json:"samples"`
+			Distinct     int                  `json:"distinct_nontrivial"`
+		}
+		if b, err := os.ReadFile(out); err == nil {
+			json.Unmarshal(b, &child)
+		}
+		replay := map[string]any{"child_spec": spec, "stage": string(stage)}
+		if len(child.Samples) > 0 {
+			replay["steps"] = child.Samples[0]["steps"]
+		}
+		switch {
+		case timedOut:
+			rep.Inconc(fmt.Sprintf("watchdog: compaction child %d did not finish (stage %s)", i, stage))
+		case child.Completed:
+			rep.Count("children_completed", 1)
+			for k, v := range child.Counts {
+				if k != "inconclusive" {
+					rep.Count(k, v)
+				}
+			}
+			for _, v := range child.Violations {
+				rep.Violation(v.Fingerprint, v.What, v.Replay)
+			}
+			for _, s := range child.Inconclusive {
+				rep.Inconc(s)
+			}
+			if child.Distinct > 0 && len(child.Samples) > 0 {
+				rep.Nontrivial(fmt.Sprintf("child %d %v", i, child.Samples[0]["steps"]))
+			}
+			if len(child.Samples) > 0 {
+				rep.Sample(child.Samples[0])
+			}
+		default:
+			m := regexp.MustCompile(`(?m)^(panic: .*|fatal error: .*)$`).FindString(text)
+			if m == "" {
+				rep.Inconc(fmt.Sprintf("compaction child %d ended without a report and without a panic message (stage %s, wait %v): %s", i, stage, werr, tail))
+				return
+			}
+			fn := "?"
+			if fm := c18FrameRe.FindStringSubmatch(text[strings.Index(text, m):]); fm != nil {
+				fn = fm[1][strings.LastIndex(fm[1], "/")+1:]
+				fn = strings.NewReplacer("(*", "", ")", "").Replace(fn)
+			}
+			rep.Count("server_process_crashes", 1)
+			replay["crash"] = m
+			replay["child_output_tail"] = tail
+			rep.Nontrivial(fmt.Sprintf("child %d crash %s variant %d", i, fn, spec.Variant))
+			rep.Sample(replay)
+			if string(stage) == "restarting" {
+				rep.Violation("C18:compaction:controller-crash-after-snapshot-restart:"+fn,
+					fmt.Sprintf("the server process died (%s, first server frame %s) when it became controller again after a restart from a Raft snapshot that had truncated the Raft log (TrailingLogs scaled to %d): the last-published activity index is not part of the snapshot, the dispatcher restarts from Raft index 1 and panics on the missing log entry; no later operation is ever listed", m, fn, spec.Trailing), replay)
+			} else {
+				rep.Violation("C18:compaction:server-crash:"+fn, fmt.Sprintf("the server process died (%s, first server frame %s) at stage %s", m, fn, stage), replay)
+			}
+		}
+	})
+}
+
+// c18Skip: C18_ONLY=<run> replays a single scenario of a unit (debugging /
+// replay aid; the case list itself is unchanged).
+func c18Skip(i int) bool {
+	only := kit.EnvInt("C18_ONLY", -1)
+	return only >= 0 && only != i
 }
